@@ -98,12 +98,15 @@ Definition unzig (u : Z) : Z :=
 Definition var_get (nbin : Z) (bs : bits) : res (Z * bits) :=
   do '(u, r) <- uvar_get (nbin + 1) bs ;; Ok (unzig u, r).
 
-Fixpoint var_get_n (n : nat) (nbin : Z) (bs : bits) : res (list Z * bits) :=
+(* n values, each stored into an int32 array as soon as it is read *)
+Fixpoint var_get_n_chk (n : nat) (nbin : Z) (bs : bits) : res (list Z * bits) :=
   match n with
   | O => Ok ([], bs)
   | S n' => do '(v, r) <- var_get nbin bs ;;
-            do '(vs, r') <- var_get_n n' nbin r ;;
-            Ok (v :: vs, r')
+            if fits32 v then
+              do '(vs, r') <- var_get_n_chk n' nbin r ;;
+              Ok (v :: vs, r')
+            else Err EUnspec
   end.
 
 Fixpoint skip_n (n : nat) (bs : bits) : res (unit * bits) :=
@@ -190,14 +193,22 @@ Definition pred_qlpc (lpcqoffset : Z) (qs : list Z) (buf : list Z) : option Z :=
   let s := lpcqoffset + dot qs buf in
   if fits32 s then Some (Z.shiftr s c_LPCQUANT) else None.
 
-(* cbuffer[i] = residual + prediction, for the residuals in order; the buffer grows at its head *)
-Fixpoint fill (pred : list Z -> option Z) (buf : list Z) (rs : list Z) : option (list Z) :=
-  match rs with
-  | [] => Some buf
-  | r :: rs' => match pred buf with
-                | Some p => fill pred ((r + p) :: buf) rs'
-                | None => None
-                end
+(* for i in range(nwrap, nwrap + blocksize): cbuffer[i] = var_get(resn) + prediction.
+   The buffer grows at its head.  The first value that leaves int32 (residual,
+   LPC sum, stored sample) ends the modelled domain, in program order: before any
+   later end of the stream is noticed *)
+Fixpoint read_loop (n : nat) (pred : list Z -> option Z) (resn : Z) (buf : list Z) (bs : bits)
+  : res (list Z * bits) :=
+  match n with
+  | O => Ok (buf, bs)
+  | S n' =>
+    do '(r, b) <- var_get resn bs ;;
+    if fits32 r then
+      match pred buf with
+      | Some p => if fits32 (r + p) then read_loop n' pred resn ((r + p) :: buf) b else Err EUnspec
+      | None => Err EUnspec
+      end
+    else Err EUnspec
   end.
 
 Definition is_diff (cmd : Z) : bool :=
@@ -270,20 +281,17 @@ Definition read_fill (h : hdr) (c : chan_st) (n : nat) (cmd resn coffset : Z) (b
   : res (list Z * bits) :=
   if cmd =? c_FN_ZERO then Ok (repeat 0 n ++ c_hist c, bs2)
   else if is_diff cmd then
-    do '(rs, b) <- var_get_n n resn bs2 ;;
-    if forallb fits32 rs then
-      do buf <- of_option (fill (fun bf => Some (pred_diff cmd coffset bf)) (c_hist c) rs) ;;
-      Ok (buf, b)
-    else Err EUnspec
+    read_loop n (fun bf => Some (pred_diff cmd coffset bf)) resn (c_hist c) bs2
   else (* FN_QLPC *)
     do '(nlpc, b) <- uvar_get c_LPCQSIZE bs2 ;;
     if h_maxnlpc h <? nlpc then Err EUnspec else
-    do '(qs, b') <- var_get_n (Z.to_nat nlpc) c_LPCQUANT b ;;
-    do '(rs, b'') <- var_get_n n resn b' ;;
-    if forallb fits32 qs && forallb fits32 rs then
-      let k := Z.to_nat nlpc in
-      let hist' := map (fun x => x - coffset) (firstn k (c_hist c)) ++ skipn k (c_hist c) in
-      do buf <- of_option (fill (pred_qlpc (lpcqoffset_of h) qs) hist' rs) ;;
+    do '(qs, b') <- var_get_n_chk (Z.to_nat nlpc) c_LPCQUANT b ;;
+    let k := Z.to_nat nlpc in
+    (* cbuffer[nwrap - nlpc : nwrap] -= coffset *)
+    let shifted := map (fun x => x - coffset) (firstn k (c_hist c)) in
+    if forallb fits32 shifted then
+      do '(buf, b'') <- read_loop n (pred_qlpc (lpcqoffset_of h) qs) resn (shifted ++ skipn k (c_hist c)) b' ;;
+      (* if coffset: cbuffer[nwrap : blocksize + nwrap] += coffset *)
       Ok (map (fun x => x + coffset) (firstn n buf) ++ skipn n buf, b'')
     else Err EUnspec.
 
@@ -474,7 +482,9 @@ Definition enc_block (h : hdr) (es : estate) (p : predictor) (resn : Z) (samples
           let nlpc := Z.of_nat (length qs) in
           (* a block shorter than the history would leave shifted samples in it *)
           if (h_maxnlpc h <? nlpc) || negb (forallb fits32 qs)
-             || negb ((Z.of_nat nwrap <=? e_bs es) || (nlpc =? 0) || (coffset =? 0)) then None else
+             || negb ((Z.of_nat nwrap <=? e_bs es) || (nlpc =? 0) || (coffset =? 0))
+             || negb (forallb fits32 (map (fun x => x - coffset) (firstn (length qs) (c_hist c))))
+             || negb (forallb fits32 (map (fun x => x - coffset) vs)) then None else
           match resid (pred_qlpc (lpcqoffset_of h) qs)
                       (map (fun x => x - coffset) (c_hist c)) (map (fun x => x - coffset) vs) with
           | Some rs =>
@@ -611,27 +621,46 @@ Definition sample_ok (shift s : Z) : Prop := bnd B16 s /\ s mod 2 ^ shift = 0.
 
 Definition sumabs (qs : list Z) : Z := fold_right (fun q a => Z.abs q + a) 0 qs.
 
-Definition pred_ok (p : params) (bs : Z) (pr : predictor) (smp : list Z) : Prop :=
-  match pr with
-  | PZero => Forall (fun s => s = 0) smp
-  | PDiff k => 0 <= k <= 3
-  | PQlpc qs => Z.of_nat (length qs) <= p_maxnlpc p /\ Z.max (p_maxnlpc p) c_NWRAP <= bs
-                /\ sumabs qs <= 16384
-  end.
-
 Definition next_chan (p : params) (chan : nat) : nat :=
   if Z.of_nat chan =? p_nchan p - 1 then O else S chan.
 
+(* valid scripts, generic in: which samples a block may hold at a bit shift
+   ([sok]), which samples make a FN_ZERO block ([zok]), the bound [Q] on the total
+   magnitude of LPC coefficients, and the bound [SH] on bit shifts *)
+Section GValid.
+Variables (sok zok : Z -> Z -> Prop) (Q SH : Z).
+
+Definition gpred_ok (p : params) (bs shift : Z) (pr : predictor) (smp : list Z) : Prop :=
+  match pr with
+  | PZero => Forall (zok shift) smp
+  | PDiff k => 0 <= k <= 3
+  | PQlpc qs => Z.of_nat (length qs) <= p_maxnlpc p /\ Z.max (p_maxnlpc p) c_NWRAP <= bs
+                /\ sumabs qs <= Q
+  end.
+
 (* [bs], [shift], [chan]: block size, bit shift and channel in force *)
-Fixpoint valid_items (p : params) (bs shift : Z) (chan : nat) (its : list item) : Prop :=
+Fixpoint gvalid_items (p : params) (bs shift : Z) (chan : nat) (its : list item) : Prop :=
   match its with
   | [] => True
-  | IBlockSize n :: r => chan = O /\ 0 < n <= p_bs p /\ valid_items p n shift chan r
-  | IBitShift s :: r => 0 <= s < 32 /\ valid_items p bs s chan r
+  | IBlockSize n :: r => chan = O /\ 0 < n <= p_bs p /\ gvalid_items p n shift chan r
+  | IBitShift s :: r => 0 <= s < SH /\ gvalid_items p bs s chan r
   | IBlock pr resn smp :: r =>
-    Z.of_nat (length smp) = bs /\ 0 <= resn /\ Forall (sample_ok shift) smp /\ pred_ok p bs pr smp
-    /\ valid_items p bs shift (next_chan p chan) r
+    Z.of_nat (length smp) = bs /\ 0 <= resn /\ Forall (sok shift) smp /\ gpred_ok p bs shift pr smp
+    /\ gvalid_items p bs shift (next_chan p chan) r
   end.
+End GValid.
+
+(* 16-bit (and narrower) samples: multiples of 2^shift within 16 bits, FN_ZERO for
+   zero samples, LPC coefficients of total magnitude <= 2^14, bit shifts < 32 *)
+Definition valid_items : params -> Z -> Z -> nat -> list item -> Prop :=
+  gvalid_items sample_ok (fun _ s => s = 0) 16384 32.
+
+(* mu-law codes (TYPE_AU1 / TYPE_AU2): any byte, FN_ZERO for the byte whose code is
+   0 (ULAW_OUTWARD[shift][128]), LPC coefficients of total magnitude <= 2^11, bit
+   shifts < 13 (the rows of ULAW_OUTWARD) *)
+Definition valid_items_au (p : params) : Z -> Z -> nat -> list item -> Prop :=
+  gvalid_items (fun _ s => 0 <= s < 256)
+               (fun shift s => unfix_sample (p_ftype p) shift s = Some 0) 2048 13 p.
 
 (* ------------------------------------------------------------------ *)
 (** * From a signal and per-round choices to a script *)
